@@ -10,6 +10,7 @@ oracle:         the same observations vs `pdshmodel rcmd spec` (token grammar / 
                 defaults chain / rank = position); the command text must arrive verbatim
 """
 import itertools
+import json
 import os
 import pwd
 import subprocess
@@ -152,7 +153,7 @@ def detect_variant(exe):
     return {(False, False): "unchanged", (True, False): "d10", (False, True): "d11", (True, True): "repaired"}[(d10, d11)]
 
 
-def part_a(ctx, cov, dist, rng):
+def part_a(ctx, cov, dist, rng, only=None):
     exes = []
     for name, asrt in (("assert+asan", True), ("shipped(NDEBUG)+asan", False)):
         exe = os.path.join(ctx.scratch, "fmt_" + ("dbg" if asrt else "rel"))
@@ -167,7 +168,9 @@ def part_a(ctx, cov, dist, rng):
     dist["variant"] = variant
     if variant != "unchanged":
         ctx.log("pipecmd_format_arg behaves as the repaired variant `%s`: the model runs with that switch" % variant)
-    cases = fmt_cases(ctx, rng)
+    cases = fmt_cases(ctx, rng) if only is None else list(only)
+    if not cases:
+        return variant
     text = "".join(c + "\n" for c in cases)
     mlines = ctx.model("rcmd", text, args=["model", variant])
     slines = ctx.model("rcmd", text, args=["spec"])
@@ -356,7 +359,7 @@ def reg_line(c, transports, luser):
         "+".join(hx(t) for t in targets), " ".join(wtoks)), targets
 
 
-def part_c(ctx, cov, dist, rng, repo):
+def part_c(ctx, cov, dist, rng, repo, only=None):
     pool = preload.Pool(ctx)
     exe = os.path.join(repo, "src/pdsh/pdsh")
     if not (pool.build() and preload.check_imports(ctx, exe)):
@@ -365,8 +368,7 @@ def part_c(ctx, cov, dist, rng, repo):
     luser = pwd.getpwuid(1000).pw_name
     n = 3000 if ctx.quick() else 20000
     recs = []
-    for _ in range(n):
-        c = gen_reg_case(rng, transports)
+    for c in ((gen_reg_case(rng, transports) for _ in range(n)) if only is None else only):
         files = [pool.by_id[i].file for i in c["loaded_ids"]]
         rng.shuffle(files)
         extra_env = {"PDSH_RCMD_TYPE": c["envtype"]} if c["envtype"] is not None else {}
@@ -387,7 +389,7 @@ def part_c(ctx, cov, dist, rng, repo):
         case = {"argv": c["argv"], "PDSH_RCMD_TYPE": c["envtype"], "loaded": [transports[i] for i in c["loaded_ids"]],
                 "words": c["words"], "targets": targets}
         if r["rc"] not in (0, 1):
-            ctx.offender("crash", "pdsh ends with status %s" % r["rc"], {"case": case, "stderr": r["err"][-600:]})
+            ctx.offender("crash", "pdsh ends with status %s" % r["rc"], {"case": case, "gen": c, "stderr": r["err"][-600:]})
             continue
         if r["rc"] == 1 and not log:
             obs = "fatal"
@@ -398,13 +400,13 @@ def part_c(ctx, cov, dist, rng, repo):
         else:
             m_cmp = m
         if obs != m_cmp and not (m_cmp == "ok" and not log):
-            ctx.disagreement("registry model vs pdsh", "impl `%s` model `%s`" % (obs[:300], m[:300]), {"case": case, "line": line})
+            ctx.disagreement("registry model vs pdsh", "impl `%s` model `%s`" % (obs[:300], m[:300]), {"gen": c})
         # the command text reaches the transport verbatim (argv joined by single blanks), local user as is
         want_cmd = hx(" ".join(c["cmd"]))
         for w in log:
             if w[7] != want_cmd or w[4] != hx(luser):
                 ctx.offender("reg:command-text", "transport %s got command `%s` / local user `%s`, expected `%s` / `%s`" % (
-                    w[2], unhx(w[7]), unhx(w[4]), " ".join(c["cmd"]), luser), {"case": case, "log": w})
+                    w[2], unhx(w[7]), unhx(w[4]), " ".join(c["cmd"]), luser), {"case": case, "gen": c, "log": w})
                 break
         if s == "nodomain":
             dist["reg_nodomain"] += 1
@@ -422,13 +424,13 @@ def part_c(ctx, cov, dist, rng, repo):
             ctx.offender(sig, "connections differ from the specification: observed `%s`, specified `%s` (type|host|user|rank)" % (
                 " ".join("|".join(unhx(y) if k < 3 else y for k, y in enumerate(x.split("|"))) for x in obs.split()[1:]),
                 " ".join("|".join(unhx(y) if k < 3 else y for k, y in enumerate(x.split("|"))) for x in s.split()[1:])),
-                {"case": case})
+                {"case": case, "gen": c})
     cov["distinct_nontrivial"] += len(distinct)
 
 
 # ------------------------------------------------------------------------------------- (b) real pdsh -R exec
 
-def part_b(ctx, cov, dist, rng, repo, variant):
+def part_b(ctx, cov, dist, rng, repo, variant, only=None):
     helper = os.path.join(ctx.scratch, "argdump")
     p = subprocess.run(["gcc", "-O1", "-o", helper, os.path.join(HARNESS, "argdump.c")], stderr=subprocess.PIPE)
     if p.returncode != 0:
@@ -440,19 +442,22 @@ def part_b(ctx, cov, dist, rng, repo, variant):
     env = {"PATH": "/usr/bin:/bin", "ZV": "q%h"}
     envblock = b"".join(("%s=%s" % kv).encode() + b"\0" for kv in env.items())
     lines, recs = [], []
-    for _ in range(n):
+    def gen():
         hosts = rng.sample(["h1", "h2", "h3", "n7", "zz"], rng.choice([1, 2, 3]))
         user = rng.choice([None, "u1", "bob"])
         k = rng.choice([0, 1, 2, 2, 3, 4])
         args = [rng.choice(pieces) if rng.random() < 0.75 else "".join(rng.choice(ALPHA) for _ in range(rng.randrange(0, 6)))
                 for _ in range(k)]
+        return {"hosts": hosts, "user": user, "args": args}
+    for g in ((gen() for _ in range(n)) if only is None else only):
+        hosts, user, args = g["hosts"], g["user"], g["args"]
         argv = ["-R", "exec", "-w", ",".join(hosts)] + (["-l", user] if user else []) + [helper] + args
         try:
             q = subprocess.run([exe] + argv, env=env, stdout=subprocess.PIPE, stderr=subprocess.PIPE,
                                stdin=subprocess.DEVNULL, timeout=30, cwd=ctx.scratch)
             rc, out = q.returncode, q.stdout.decode("latin-1")
         except subprocess.TimeoutExpired:
-            ctx.offender("timeout", "pdsh -R exec does not finish", {"argv": argv})
+            ctx.offender("timeout", "pdsh -R exec does not finish", {"argv": argv, "gen": g})
             continue
         got = {}
         for l in out.splitlines():
@@ -463,14 +468,14 @@ def part_b(ctx, cov, dist, rng, repo, variant):
             line = "args %s %s %d %s %s %s" % (hx(h), hx(user or "root"), rank, hx("argdump"), bh(envblock),
                                                " ".join(hx(a) for a in args))
             lines.append(line)
-            recs.append((argv, h, got.get(h)))
+            recs.append((argv, h, got.get(h), g))
     text = "".join(l + "\n" for l in lines)
     ml = ctx.model("rcmd", text, args=["model", variant])
     sl = ctx.model("rcmd", text, args=["spec"])
-    for line, (argv, h, got), m, s in zip(lines, recs, ml, sl):
+    for line, (argv, h, got, g), m, s in zip(lines, recs, ml, sl):
         cov["evaluations"] += 1
         dist["cli"] += 1
-        case = {"argv": argv, "host": h}
+        case = {"argv": argv, "host": h, "gen": g}
         if got is None:
             ctx.offender("cli:no-output", "helper produced no argv line for host %s" % h, case)
             continue
@@ -570,7 +575,7 @@ class RshPeer:
             s.close()
 
 
-def part_d(ctx, cov, dist, rng, repo):
+def part_d(ctx, cov, dist, rng, repo, only=None):
     try:
         peer = RshPeer()
     except OSError as e:
@@ -583,9 +588,7 @@ def part_d(ctx, cov, dist, rng, repo):
     dist["rsh"] = 0
     nviol0 = len(ctx.violations)
     try:
-        for _ in range(n):
-            if len(ctx.violations) - nviol0 >= 3:
-                break               # a broken handshake makes every run wait for time-outs
+        def gen():
             addrs = rng.sample(PEER_ADDRS, rng.choice([1, 2, 3]))
             words, want = [], {}
             for a in addrs:
@@ -598,16 +601,21 @@ def part_d(ctx, cov, dist, rng, repo):
                     want[a] = None
             l = rng.choice([None, None, "bob", "u2"])
             cmd = rng.choice([["true"], ["echo", "a  b", "%h%%"], ["sh", "-c", "x;y  z"], ["uname", "-a", "%"], ["c", "", "d"]])
+            return {"addrs": addrs, "words": words, "want": want, "l": l, "cmd": cmd}
+        for g in ((gen() for _ in range(n)) if only is None else only):
+            if len(ctx.violations) - nviol0 >= 3:
+                break               # a broken handshake makes every run wait for time-outs
+            addrs, words, want, l, cmd = g["addrs"], g["words"], g["want"], g["l"], g["cmd"]
             argv = ["-R", "rsh", "-w", ",".join(words)] + (["-l", l] if l else []) + cmd
             try:
                 q = subprocess.run([exe] + argv, env={"PATH": "/usr/bin:/bin"}, stdout=subprocess.PIPE,
                                    stderr=subprocess.PIPE, stdin=subprocess.DEVNULL, timeout=60, cwd=ctx.scratch)
             except subprocess.TimeoutExpired:
-                ctx.offender("timeout", "pdsh -R rsh against the scripted peer does not finish", {"argv": argv})
+                ctx.offender("timeout", "pdsh -R rsh against the scripted peer does not finish", {"argv": argv, "gen": g})
                 peer.take()
                 continue
             got = peer.take()
-            case = {"argv": argv, "rc": q.returncode, "stderr": q.stderr.decode("latin-1")[-300:]}
+            case = {"argv": argv, "gen": g, "rc": q.returncode, "stderr": q.stderr.decode("latin-1")[-300:]}
             lines = []
             for addr, _, data, backok in got:
                 lines.append("parse " + bh(data))
@@ -641,6 +649,44 @@ def part_d(ctx, cov, dist, rng, repo):
         peer.close()
 
 
+def replay_items(ctx):
+    """sorts the case(s) of a replay file written by ctx.finish into the four parts of this check:
+    (a) protocol lines for the in-process harness, (b) -R exec runs, (c) registry runs, (d) rsh runs"""
+    obj = json.load(open(ctx.replay))
+    items = []
+    if obj.get("kind") == "input":
+        items.append(obj["case"])
+    else:
+        for b in obj.get("broken", []):
+            txt = b[2] if len(b) > 2 else ""
+            if ":: case=" in txt:
+                try:
+                    items.append(json.loads(txt.split(":: case=", 1)[1]))
+                except ValueError:
+                    ctx.log("replay: a recorded case is truncated in %s, skipped" % ctx.replay)
+    ra, rb, rc_, rd = [], [], [], []
+    for it in items:
+        g = it.get("gen")
+        if it.get("line") and it["line"].split()[0] in ("fmt", "args"):
+            ra.append(it["line"])
+        elif g and "addrs" in g:
+            rd.append(g)
+        elif g and "loaded_ids" in g:
+            rc_.append(g)
+        elif g and "hosts" in g:
+            rb.append(g)
+        elif "argv" in it and "host" in it:
+            # older replay files of the -R exec part: rebuild the generator case from the command line
+            av = it["argv"]
+            k = next((i for i, x in enumerate(av) if x.endswith("/argdump")), None)
+            if k is not None:
+                rb.append({"hosts": av[av.index("-w") + 1].split(","), "user": av[av.index("-l") + 1] if "-l" in av[:k] else None,
+                           "args": av[k + 1:]})
+    if not (ra or rb or rc_ or rd):
+        ctx.broken.append(("C-BROKEN", "replay", "no replayable case in " + str(ctx.replay)))
+    return ra, rb, rc_, rd
+
+
 def run(ctx):
     rng = ctx.rng
     ctx.gen_consts(["modopt"])
@@ -656,12 +702,25 @@ def run(ctx):
                    "peer on loopback recording the request bytes; non-trivial = argument containing "
                    "'%' / command line with two annotated words or an annotated word over a repeated host; distinct by text"}
     dist = {"fmt": 0, "args": 0, "cli": 0, "reg": 0, "reg_fatal": 0, "reg_nodomain": 0, "nodomain": 0, "offenders": {}}
-    variant = part_a(ctx, cov, dist, rng)
-    repo = ctx.repo_build()
-    if repo is not None and variant is not None:
-        part_b(ctx, cov, dist, rng, repo, variant)
-        part_c(ctx, cov, dist, rng, repo)
-        part_d(ctx, cov, dist, rng, repo)
+    if getattr(ctx, "replay", None):
+        ra, rb, rc_, rd = replay_items(ctx)
+        cov["rule"] = "replay of %s: exactly the recorded case(s)" % ctx.replay
+        variant = part_a(ctx, cov, dist, rng, only=ra)
+        repo = ctx.repo_build() if (rb or rc_ or rd) else None
+        if repo is not None and variant is not None:
+            if rb:
+                part_b(ctx, cov, dist, rng, repo, variant, only=rb)
+            if rc_:
+                part_c(ctx, cov, dist, rng, repo, only=rc_)
+            if rd:
+                part_d(ctx, cov, dist, rng, repo, only=rd)
+    else:
+        variant = part_a(ctx, cov, dist, rng)
+        repo = ctx.repo_build()
+        if repo is not None and variant is not None:
+            part_b(ctx, cov, dist, rng, repo, variant)
+            part_c(ctx, cov, dist, rng, repo)
+            part_d(ctx, cov, dist, rng, repo)
     cov["distribution"] = dist
     return ctx.finish(
         LEVEL, cov,
